@@ -108,6 +108,88 @@ let show_realm r =
   String.concat " " (Stdlib.List.map (fun s ->
     Printf.sprintf "S(%s)[%s]" (hexb s.s_name) (String.concat " " (Stdlib.List.map show_table s.s_tables))) r)
 
+let kind_of_name = function
+  | "AddAttr" -> KAddAttr
+  | "DropAttr" -> KDropAttr
+  | "ModifyAttr" -> KModifyAttr
+  | "AddSchema" -> KAddSchema
+  | "DropSchema" -> KDropSchema
+  | "ModifySchema" -> KModifySchema
+  | "AddTable" -> KAddTable
+  | "DropTable" -> KDropTable
+  | "ModifyTable" -> KModifyTable
+  | "RenameTable" -> KRenameTable
+  | "AddView" -> KAddView
+  | "DropView" -> KDropView
+  | "ModifyView" -> KModifyView
+  | "RenameView" -> KRenameView
+  | "AddFunc" -> KAddFunc
+  | "DropFunc" -> KDropFunc
+  | "ModifyFunc" -> KModifyFunc
+  | "RenameFunc" -> KRenameFunc
+  | "AddProc" -> KAddProc
+  | "DropProc" -> KDropProc
+  | "ModifyProc" -> KModifyProc
+  | "RenameProc" -> KRenameProc
+  | "AddObject" -> KAddObject
+  | "DropObject" -> KDropObject
+  | "ModifyObject" -> KModifyObject
+  | "RenameObject" -> KRenameObject
+  | "AddTrigger" -> KAddTrigger
+  | "DropTrigger" -> KDropTrigger
+  | "ModifyTrigger" -> KModifyTrigger
+  | "RenameTrigger" -> KRenameTrigger
+  | "AddIndex" -> KAddIndex
+  | "DropIndex" -> KDropIndex
+  | "ModifyIndex" -> KModifyIndex
+  | "RenameIndex" -> KRenameIndex
+  | "AddPrimaryKey" -> KAddPrimaryKey
+  | "DropPrimaryKey" -> KDropPrimaryKey
+  | "ModifyPrimaryKey" -> KModifyPrimaryKey
+  | "AddCheck" -> KAddCheck
+  | "DropCheck" -> KDropCheck
+  | "ModifyCheck" -> KModifyCheck
+  | "AddColumn" -> KAddColumn
+  | "DropColumn" -> KDropColumn
+  | "ModifyColumn" -> KModifyColumn
+  | "RenameColumn" -> KRenameColumn
+  | "AddForeignKey" -> KAddForeignKey
+  | "DropForeignKey" -> KDropForeignKey
+  | "ModifyForeignKey" -> KModifyForeignKey
+  | "RenameConstraint" -> KRenameConstraint
+  | s -> failwith ("kind " ^ s)
+
+let raw b = string_of_bytes b
+let k n = string_of_int (int_of_n n)
+let show_change = function
+  | AddColumn c -> "+C(" ^ raw c ^ ")"
+  | DropColumn c -> "-C(" ^ raw c ^ ")"
+  | ModifyColumn (c, b) -> "~C(" ^ raw c ^ ":" ^ k b ^ ")"
+  | AddIndex n -> "+I(" ^ raw n ^ ")"
+  | DropIndex n -> "-I(" ^ raw n ^ ")"
+  | ModifyIndex (n, b) -> "~I(" ^ raw n ^ ":" ^ k b ^ ")"
+  | AddPrimaryKey -> "+PK"
+  | DropPrimaryKey -> "-PK"
+  | ModifyPrimaryKey b -> "~PK(" ^ k b ^ ")"
+  | RenameConstraint (a, b) -> "RC(" ^ raw a ^ ">" ^ raw b ^ ")"
+  | AddForeignKey s -> "+FK(" ^ raw s ^ ")"
+  | DropForeignKey s -> "-FK(" ^ raw s ^ ")"
+  | ModifyForeignKey (s, b) -> "~FK(" ^ raw s ^ ":" ^ k b ^ ")"
+  | AddCheck (n, e) -> "+CK(" ^ raw n ^ ":" ^ hexb e ^ ")"
+  | DropCheck (n, e) -> "-CK(" ^ raw n ^ ":" ^ hexb e ^ ")"
+  | ModifyCheck (n, e, n2, e2) -> "~CK(" ^ raw n ^ ":" ^ hexb e ^ ">" ^ raw n2 ^ ":" ^ hexb e2 ^ ")"
+  | AddAttr a -> "+A(" ^ k a ^ ")"
+  | DropAttr a -> "-A(" ^ k a ^ ")"
+  | ModifyAttr a -> "~A(" ^ k a ^ ")"
+let show_schange = function
+  | AddTable n -> "+T(" ^ raw n ^ ")"
+  | DropTable n -> "-T(" ^ raw n ^ ")"
+  | ModifyTable (n, cs) -> "~T(" ^ raw n ^ "){" ^ String.concat "," (Stdlib.List.map show_change cs) ^ "}"
+let show_changes = function
+  | None -> "err"
+  | Some [] -> "[]"
+  | Some cs -> String.concat ";" (Stdlib.List.map show_schange cs)
+
 let show_err = function
   | EBadPattern -> "badpattern" | ETooMany -> "toomany" | ESplit -> "split"
   | EOutside -> "outside-domain" | EInternal -> "internal"
@@ -143,6 +225,16 @@ let () =
           (match res with
            | EErr e -> Printf.printf "%s err=%s\n" id (show_err e)
            | EOk r' -> Printf.printf "%s ok %s\n" id (show_realm r'))
+        | "skip" ->
+          let nk = next_int () in
+          let ks = times nk (fun () -> kind_of_name (next ())) in
+          let from = parse_schema () in
+          let to_ = parse_schema () in
+          let got = sqlite_schema_diff (skip_of ks) from to_ in
+          (* the model's own reference must agree with the model's filtered diff (theorem C19_skip) *)
+          let want = (match sqlite_schema_diff no_skip from to_ with None -> None | Some cs -> Some (remove_kinds ks cs)) in
+          if show_changes got <> show_changes want then Printf.printf "%s MODEL-REFERENCE-DIFFERS %s\n" id (show_changes want);
+          Printf.printf "%s %s\n" id (show_changes got)
         | m -> failwith ("mode " ^ m)
       end
     done
